@@ -45,7 +45,7 @@ class C07(Prop):
 
     def gen(self, tier, rng):
         maxlen = 40 if tier == "quick" else 200
-        reps = 16 if tier == "quick" else 150
+        reps = 40 if tier == "quick" else 300
         for rep in range(reps):
             for et in FLOATS:
                 fp = FP(et)
